@@ -72,7 +72,7 @@ func cmdAlias(args []string) int {
 		if strings.HasSuffix(p.Fset.Position(fn.Pos()).Filename, "_test.go") {
 			continue
 		}
-		for _, f := range an.AliasLints(fn) {
+		for _, f := range append(an.AliasLints(fn), an.OrderLints(fn)...) {
 			n++
 			fmt.Printf("%s %s: %s\n", p.InstrPos(f.Instr), an.QualName(fn), f.Msg)
 		}
